@@ -21,6 +21,7 @@ type FileStageExpect struct {
 	TickNs    int64             `json:"tick,omitempty"`      // constant mode, distribution none: expected tick interval
 	TickRate  int               `json:"tick_rate,omitempty"` // and per-tick rate
 	UsersConc int               `json:"users,omitempty"`
+	Def       string            `json:"def,omitempty"` // effective definition (mode, duration, fields): equal for twin stages
 }
 
 type FileExpect struct {
@@ -251,9 +252,20 @@ func genFileDoc(r *simrt.Rng, now0 int64, forRestart bool) (ydoc, *FileExpect) {
 		} else {
 			fe.Params = map[string]string{}
 		}
+		if j, has := eff["jitter"]; mode != "gaussian" && mode != "users" && (!has || j == "0") {
+			// behaviour is a function of the time since the stage began (gaussian follows the wall clock, jitter is random)
+			fe.Def = fmt.Sprintf("%s/%d/%v", fe.Mode, fe.DurNs, eff)
+		}
 		exp.TotalNs += fe.DurNs
 		exp.Stages = append(exp.Stages, fe)
 		d.stages = append(d.stages, st)
+	}
+	if r.Intn(5) == 0 {
+		// the same stage twice ("ramp up, pause, ramp up again"): both occurrences must behave alike
+		j := r.Intn(len(d.stages))
+		d.stages = append(d.stages, d.stages[j])
+		exp.Stages = append(exp.Stages, exp.Stages[j])
+		exp.TotalNs += exp.Stages[j].DurNs
 	}
 	exp.MaxDurationNs = exp.TotalNs + int64(simrt.Pick(r, 200, 500, 1000))*ms
 	if r.Intn(5) == 0 {
@@ -262,6 +274,9 @@ func genFileDoc(r *simrt.Rng, now0 int64, forRestart bool) (ydoc, *FileExpect) {
 	// an odd sub-millisecond part: the run's deadline (max-duration - 10 ms) must not coincide with a stage
 	// boundary or a tick (same-instant timers feeding one goroutine are not ordered by the simulator, §2.3)
 	exp.MaxDurationNs = exp.MaxDurationNs/ms*ms + 137*1000
+	if r.Intn(6) == 0 {
+		conc = 1 + r.Intn(2) // fewer workers than requests per tick: iterations are dropped
+	}
 	exp.Concurrency = conc
 	exp.MaxIterations = uint64(simrt.Pick(r, 0, 0, 0, 5, 40))
 	exp.MaxFailures = uint64(r.Intn(3))
@@ -435,6 +450,11 @@ func (h h6) Gen(prop, tier string, r *simrt.Rng) (any, simrt.Config) {
 		SelectShuffle: simrt.Pick(r, 0.0, 0.3)}
 	if prop == "C15" {
 		h.genFileRun(c, r, tier)
+		if r.Intn(4) == 0 {
+			c.Driver = "cli" // the limits reach the run through the command's option mapping
+			c.Verbose, c.Interactive = true, false
+			c.WaitTimeoutNs = 10*int64(time.Second) + 311 // the command's own completion timeout
+		}
 		sc.MaxSimNs += c.StartOffsetNs
 		return c, sc
 	}
@@ -664,7 +684,15 @@ func (h6) genFileRun(c *H1Cfg, r *simrt.Rng, tier string) {
 	c.File = exp
 	c.Concurrency = exp.Concurrency
 	c.MaxDurationNs = exp.MaxDurationNs
+	c.MaxIterations, c.MaxFailures, c.MaxFailRate, c.IgnoreDropped = exp.MaxIterations, exp.MaxFailures, exp.MaxFailRate, exp.IgnoreDropped
 	c.ReadEnv = exp.ParamNames
+	if r.Intn(3) == 0 {
+		c.Prog.SetupSleepNs = int64(simrt.Pick(r, 30, 120, 700))*ms + 29 // triggering starts after setup, whenever that is
+	}
+	if r.Intn(4) == 0 {
+		// some iterations fail, so that max-failures / max-failures-rate of the limits section matter
+		c.Prog.Iter = append(c.Prog.Iter, IterPlan{SleepNs: 2*ms + 11, Behav: bFail}, IterPlan{SleepNs: 3*ms + 13})
+	}
 	if restart {
 		c.Runs = 2
 		// crash instant: anywhere, stage boundaries favoured
